@@ -791,6 +791,17 @@ impl<'a> JoinOutput<'a> {
                     quote! { #inspect_fn_name(#expr, #prev_result) }
                 }
             }
+            ProcessExpr::Dot([member])
+                if syn::parse2::<syn::Expr>(quote! { __v.#member })
+                    .map(|expr| is_lower_precedence_than_method_call(&expr))
+                    .unwrap_or(false) =>
+            {
+                //
+                // `..x as u8` or `..len() + 1`: what the member access yields binds weaker than the
+                // method call which may follow it.
+                //
+                quote! { (#prev_result#expr) }
+            }
             _ => {
                 quote! { #prev_result#expr }
             }
